@@ -838,3 +838,66 @@ Proof.
   eexists. split; [vm_compute; reflexivity|]. split; [reflexivity|vm_compute; reflexivity].
 Qed.
 Print Assumptions C09_debug_assert_refuted.
+(* ==== re-compression at k-mer level (work package e2e-sharded) ===================================================== *)
+(* [lgraph_ok K st kj S g] (Proofs/LooseGraph.v), for a set S of canonical (K+1)-mers and a join predicate kj on canonical
+   k-mers: node sequences are DNA of length >= K, extension fields are bytes, every step inside a node is a merge of S
+   ([PipelineCheck.unbranched]: sole link of S on both facing sides, no palindrome, join accepted), the extension bits of
+   a node end are exactly the links of S at its end k-mer on that side (the two sides of a palindromic single-k-mer node
+   identified), and a palindromic k-mer is a node of its own.  Every graph compress_kmers builds from a table whose
+   extension bits are the membership in S satisfies it (LooseGraph.compress_lgraph_ok), also when extensions lead to
+   absent k-mers; it is local to nodes, hence inherited by BaseGraph::combine.
+   (1) such a graph with pairwise distinct k-mers is loosely valid - ALL its links are symmetric, whatever shard graphs
+       it was combined from;
+   (2) compress_graph without censoring returns on it, and the result is THE unitig graph of the part SL of S whose links
+       have both k-mers in the graph: same k-mers, link set SL, every step inside a node a merge of SL, every merge of SL
+       a step inside a node (or closing it), payloads (ids concatenated, colour of the seed) those of the node's k-mers.
+   Proof of (2): Proofs/LooseValid.v (an extension bit resolves iff its target k-mer is in the graph; the pruned graph is
+   valid and lgraph_ok w.r.t. SL) + Proofs/RecompUnitig.v (C09's node paths - sole mutual links, maximality, spelling,
+   terminal extensions - lifted to k-mers by reading every node of a path in its direction of travel). *)
+From DBG Require Check.PipelineCheck Proofs.LooseGraph Proofs.LooseValid Proofs.RecompUnitig.
+
+Theorem C09X_lgraph_rvalid_loose : forall K st (kj : dna -> dna -> bool) (S' : list dna) (G : list GraphCheck.node_t),
+  (1 <= K)%nat -> LooseGraph.lgraph_ok K st kj S' G -> NoDup (PipelineCheck.graph_kmers K st G) ->
+  rvalid_loose GraphCheck.pay K st G.
+Proof. exact LooseValid.G_rvalid_loose. Qed.
+Print Assumptions C09X_lgraph_rvalid_loose.
+
+Theorem C09X_lgraph_resolves_iff : forall K st (kj : dna -> dna -> bool) (S' : list dna) (G : list GraphCheck.node_t),
+  (1 <= K)%nat -> LooseGraph.lgraph_ok K st kj S' G -> NoDup (PipelineCheck.graph_kmers K st G) ->
+  forall x (n : GraphCheck.node_t) s c, nth_error G x = Some n -> c < 4 ->
+  e_has_ext (PipelineCheck.nd_exts n) (dirb s) c = true ->
+  (find_link GraphCheck.pay K st G (GraphIndex.extend (term_kmer K (PipelineCheck.nd_seq n) s) c s) s <> None <->
+   In (PipelineCheck.cn st (GraphIndex.extend (term_kmer K (PipelineCheck.nd_seq n) s) c s)) (PipelineCheck.graph_kmers K st G)).
+Proof. exact LooseValid.resolves_iff. Qed.
+Print Assumptions C09X_lgraph_resolves_iff.
+
+Theorem C09X_recompress_unitig : forall K st mode (idf colf : dna -> N) (S' SL : list dna) (G out : list GraphCheck.node_t),
+  (1 <= K)%nat ->
+  LooseGraph.lgraph_ok K st (PipelineCheck.kjoin_f mode colf) S' G -> NoDup (PipelineCheck.graph_kmers K st G) ->
+  (forall w, In w SL <-> In w S' /\ LooseValid.both_in K st (fun k => In k (PipelineCheck.graph_kmers K st G)) w) ->
+  (forall w, In w SL -> exists v, wf_dna v /\ length v = S K /\ w = PipelineCheck.cn st v) ->
+  PipelineCheck.payload_ok K st mode idf colf G ->
+  compress_graph GraphCheck.pay GraphCheck.pay_reduce (GraphCheck.pay_join mode) K st G None = Some out ->
+  Permutation (PipelineCheck.graph_kmers K st out) (PipelineCheck.graph_kmers K st G) /\
+  (forall w, In w (PipelineCheck.graph_links K st out) <-> In w SL) /\
+  PipelineCheck.unitig_graph K st mode colf out /\ PipelineCheck.payload_ok K st mode idf colf out.
+Proof. exact RecompUnitig.recompress_loose_unitig. Qed.
+Print Assumptions C09X_recompress_unitig.
+
+Theorem C09X_recompress_unitig_total : forall K st mode (colf : dna -> N) (S' : list dna) (G : list GraphCheck.node_t),
+  (1 <= K)%nat ->
+  LooseGraph.lgraph_ok K st (PipelineCheck.kjoin_f mode colf) S' G -> NoDup (PipelineCheck.graph_kmers K st G) ->
+  exists out, compress_graph GraphCheck.pay GraphCheck.pay_reduce (GraphCheck.pay_join mode) K st G None = Some out.
+Proof. exact RecompUnitig.recompress_loose_total. Qed.
+Print Assumptions C09X_recompress_unitig_total.
+
+(* every graph compress_kmers builds from a table whose extension bits are the membership in a link set S - extensions
+   towards absent k-mers allowed - is lgraph_ok w.r.t. S *)
+Theorem C09X_compress_kmers_lgraph_ok : forall K st mode, (1 <= K)%nat ->
+  forall (T : Compress.table GraphCheck.pay) (LS : list dna) (idf colf : dna -> N),
+  CompressSpec.tbl_ok GraphCheck.pay K st T -> E2eDefs.links_loose GraphCheck.pay st T LS ->
+  (forall ent, In ent T -> Compress.e_data GraphCheck.pay ent = (colf (Compress.e_key GraphCheck.pay ent), [idf (Compress.e_key GraphCheck.pay ent)])) ->
+  forall g, Compress.compress_kmers GraphCheck.pay GraphCheck.pay_reduce (GraphCheck.pay_join mode) st T = Some g ->
+  LooseGraph.lgraph_ok K st (PipelineCheck.kjoin_f mode colf) LS g.
+Proof. exact LooseGraph.compress_lgraph_ok. Qed.
+Print Assumptions C09X_compress_kmers_lgraph_ok.
